@@ -67,7 +67,7 @@ func rowsMatchSnapshot(rows []parquet.Row, snap [][]model.LV) (bool, string) {
 func runC16(c *Ctx) {
 	r := c.R
 	// types with variable-length / pooled payloads
-	names := []string{"strings", "fixed", "int96", "repdict", "deep", "c07row", "lists", "flat", "nested", "dictall", "optscalar", "c10row"}
+	names := []string{"strings", "fixed", "int96", "repdict", "deep", "c07row", "lists", "flat", "nested", "dictall", "optscalar", "c10row", "maps", "mapofmaps"}
 	te := typeByName(names[c.Case%len(names)])
 	n := gen.Pick(r, []int{60, 200, 500})
 	rows := genRows(r, te, n, genOpts{NoHuge: true, SmallLists: true})
